@@ -29,10 +29,16 @@ for sd in seeds:
             json.dump(res, open(resf, "w"), indent=1, sort_keys=True)
             continue
         p = subprocess.run([os.path.join(ROOT, "check"), prop, "--tier", tier, "--no-evidence", "--fail-fast"], cwd=ROOT, capture_output=True, text=True)
+        checked = prop
+        for other in meta.get("also_check", []):  # the change now violates a neighbouring property instead (see meta.json)
+            if p.returncode == 1:
+                break
+            p = subprocess.run([os.path.join(ROOT, "check"), other, "--tier", tier, "--no-evidence", "--fail-fast"], cwd=ROOT, capture_output=True, text=True)
+            checked = other
     finally:
         subprocess.run(["git", "-C", "/repo", "checkout", "--", "."], check=True)
     vio = [l for l in p.stdout.splitlines() if l.startswith("VIOLATION") or l.startswith("counterexample")]
     he = [l for l in p.stdout.splitlines() if l.startswith("HARNESS-ERROR")]
-    res[sd] = {"property": prop, "tier": tier, "exit": p.returncode, "caught": p.returncode == 1, "violations": vio[:6], "harness_errors": he[:4], "wall_s": round(time.time() - t0, 1), "summary": p.stdout.strip().splitlines()[-1] if p.stdout.strip() else p.stderr[-300:]}
+    res[sd] = {"property": prop, "checked_with": checked, "tier": tier, "exit": p.returncode, "caught": p.returncode == 1, "violations": vio[:6], "harness_errors": he[:4], "wall_s": round(time.time() - t0, 1), "summary": p.stdout.strip().splitlines()[-1] if p.stdout.strip() else p.stderr[-300:]}
     print(sd, "exit", p.returncode, "CAUGHT" if p.returncode == 1 else "MISSED", (vio[:1] or he[:1] or [""])[0][:200], flush=True)
     json.dump(res, open(resf, "w"), indent=1, sort_keys=True)
